@@ -71,6 +71,20 @@ spec fn accepts(kind: InstrKind, rest: Seq<Token>) -> Option<nat> {
         InstrKind::Not => if rest.len() >= 2 && is_reg(rest[0]) && is_reg(rest[1]) { Some(2nat) } else { None },
     }
 }
+/// a token that begins a statement which occupies a word (every instruction, trap and data word is one statement; operands,
+/// labels, `.orig` and `.break` are not)
+spec fn is_head(t: Token) -> bool { t.kind is Instr || t.kind is Trap || t.kind is Byte }
+/// number of statement-beginning tokens among the first `upto` tokens
+spec fn count_heads(s: Seq<Token>, upto: int) -> nat
+    decreases upto,
+{
+    if upto <= 0 { 0 } else { count_heads(s, upto - 1) + (if upto - 1 < s.len() && is_head(s[upto - 1]) { 1nat } else { 0nat }) }
+}
+/// the operand tokens an instruction accepts are registers, literals and labels: none of them begins a statement
+proof fn lemma_operands_not_heads(kind: InstrKind, rest: Seq<Token>)
+    requires accepts(kind, rest) is Some,
+    ensures forall|j: int| 0 <= j < accepts(kind, rest)->Some_0 ==> !is_head(#[trigger] rest[j]),
+{ }
 /// the statement built from accepted operands: ISA operand order
 spec fn stmt_ok(kind: InstrKind, s: AirStmt, rest: Seq<Token>, line: u16, src: &'static str, table: Map<Seq<char>, u16>) -> bool {
     match kind {
